@@ -49,6 +49,13 @@ def run(ctx, replay=None):
     ctx.cov["rule"] = ("cross product of the field classes of Codec.tla (topic/filter length x string class x payload size across the "
                        "remaining-length boundaries x operation; Config combinations); every case is distinct; all non-trivial")
     ctx.cov["samples"] = cases[:1] + cases[len(cases) // 2:len(cases) // 2 + 1] + cases[-1:]
-    ctx.cov["checker_cmd"] = "tlc MC_codec ; verifworker codec ; tlc CodecJudge"
+    ctx.cov["checker_cmd"] = "tlc MC_codec ; verifworker codec ; tlc CodecJudge ; verifworker run ; tlc MonitorRun"
+    if not replay:
+        # packets emitted under short writes and expiries stay well-formed (clauses C09_*, C08_WholePackets of Monitor.tla)
+        import e_client
+        saved = dict(ctx.cov)
+        behs = e_client.behaviours(ctx, ["req", "out"])[: (240 if ctx.tier == "quick" else 1500)]
+        e_client.execute_and_judge(ctx, binary, behs)
+        ctx.cov["samples"] = saved["samples"]
     ctx.assumptions += ["the harness decoder (harness/codec) is trusted for byte slicing; field arithmetic is evaluated in TLA+",
                         "the 268435455-byte boundary is exercised in the thorough tier only"]
